@@ -310,8 +310,11 @@ def eq_foreign(k, sel, b, other):
 
 
 # ---------------------------------------------------------------- the schema gate
-_TMP = tempfile.mkdtemp(prefix="verif-c18-")
-atexit.register(shutil.rmtree, _TMP, True)  # the three concrete model files live only as long as this process
+# the three concrete model files live in the harness directory of the run (removed by vlib.xh.run); a process outside
+# a run gets its own directory, removed at exit
+_TMP = tempfile.mkdtemp(prefix="c18-models-", dir=os.environ.get("VERIF_XH_WORK") or None)
+if not os.environ.get("VERIF_XH_WORK"):
+    atexit.register(shutil.rmtree, _TMP, True)
 MODEL_FILES = []
 for _i in range(3):
     _p = os.path.join(_TMP, "m%d.json" % _i)
